@@ -2026,10 +2026,38 @@ Proof.
     apply (@rt_same_graph parse k g a names HI Honly (v_node_names_in g) (conj Hd Hb) Hentry g').
     + intros e' He'. destruct (Hfw e' He') as [He0|([i j] & e0 & Hp & He0 & Hse)];
         [rewrite Hs0 in He0; destruct He0|].
-      apply in_pairs in Hp. exists i, j, e0. repeat split; try lia; assumption.
+      apply in_pairs in Hp. unfold n in *. exists i, j, e0.
+      split; [lia|]. split; [lia|]. split; [exact He0|exact Hse].
     + intros i j e0 Hij Hj He0. apply (Hnew (i, j) e0); [apply in_pairs; unfold n in *; lia|exact He0].
     + intros x. rewrite Hn', Hn0. reflexivity.
 Qed.
+
+Section WithGraphInvOwn.
+  Variable parse : name -> option (name * Z).
+  Variable fmt : name -> Z -> option name.
+  (** GraphInvProofs.v / GraphAcyclicProofs.v (colleagues), exact shape of GraphInv.v *)
+  Hypothesis inv_init : inv_init_statement parse.
+  Hypothesis inv_step : inv_step_statement parse fmt.
+  Hypothesis cycle_check : cycle_check_statement parse.
+
+  (** the same with the default [validate=True], for a graph whose directed part is acyclic *)
+  Theorem matrix_roundtrip_own k g a names :
+    Inv parse k g -> Acyclic g -> to_numpy g = Ok (a, names) ->
+    exists g', from_matrix parse fmt k a (Some names) true = Ok g'
+               /\ node_ids g' = names /\ same_graph g g'
+               /\ Inv parse k g' /\ Acyclic g'.
+  Proof.
+    intros HI Hac Hnp.
+    destruct (@matrix_roundtrip_own_novalidate parse fmt k g a names HI Hnp) as (g' & Hg' & Hids & Hsame).
+    assert (HI' : Inv parse k g') by (eapply from_matrix_inv; eassumption).
+    assert (Hac' : Acyclic g') by (apply (same_graph_acyclic Hsame); exact Hac).
+    exists g'. rewrite (from_matrix_validated _ _ _ _ _ Hg').
+    rewrite check_nodes_ok; [cbn [bind]; auto|].
+    intros d Hd. rewrite <- Hids in Hd.
+    destruct (@cycle_check k g' d HI' Hd) as (b & Hb & Hiff). rewrite Hb. destruct b; [|reflexivity].
+    exfalso. apply (Hac' d). apply Hiff. reflexivity.
+  Qed.
+End WithGraphInvOwn.
 
 (** * Examples: non-vacuity and the behaviour observed on the implementation *)
 From CG Require Import Names.
@@ -2165,4 +2193,21 @@ Module MatrixExamples.
     exists g', from_matrix parse fmt TS [[0; 1]; [1; 0]]%Z (Some [x0; x1]) true = Ok g'
                /\ map (fun e => (esrc e, edst e, ety e)) (v_edges g') = [(x1, x0, Und)].
   Proof. eexists. split; vm_compute; reflexivity. Qed.
+
+  (** a time-series graph: x lag(n=1) -> x, x lag(n=1) -- y; observed
+      [to_numpy()] = ([[0,0,0],[1,0,1],[0,1,0]], ['x', 'x lag(n=1)', 'y']) and the round trip
+      with the time-series class == the graph *)
+  Definition ny : name := [121].
+  Definition gts2 : graph :=
+    run parse fmt TS
+      [OAddEdge (str_ep x1) (str_ep x0) Dir None true;
+       OAddEdge (str_ep ny) (str_ep x1) Und None true] (empty_graph []).
+  Example gts2_to_numpy :
+    to_numpy gts2 = Ok ([[0; 0; 0]; [1; 0; 1]; [0; 1; 0]]%Z, [x0; x1; ny]).
+  Proof. vm_compute. reflexivity. Qed.
+  Example gts2_roundtrip :
+    exists g', from_matrix parse fmt TS [[0; 0; 0]; [1; 0; 1]; [0; 1; 0]]%Z (Some [x0; x1; ny]) true = Ok g'
+               /\ map (fun e => (esrc e, edst e, ety e)) (v_edges g') = [(x1, x0, Dir); (x1, ny, Und)]
+               /\ map (fun e => (esrc e, edst e, ety e)) (v_edges gts2) = [(x1, x0, Dir); (x1, ny, Und)].
+  Proof. eexists. split; [vm_compute; reflexivity|]. split; vm_compute; reflexivity. Qed.
 End MatrixExamples.
